@@ -1,4 +1,6 @@
 import Pm.RedfishProof
+import Pm.RfCmdLink
+import Pm.RfCmdEx
 /-! # C19 — redfishpower (test mode) answers every target once, by the documented parent/child rules, and returns to its prompt
 
 `Pm/Redfish.lean` holds two things: the machine as coded (`runCmd`: the three lists `activecmds` / `delayedcmds` /
@@ -11,8 +13,10 @@ unknown plugs included) and every set of failing hosts.
 Ranking: termination (done) ▸ one line per target (done) ▸ the rules, one by one, on the specification (done) ▸
 machine = rules, for `stat`, `on` and `off`, single commands and sequences (done, section 4 — no `_partial`).
 
-Not covered by this model: `setplugs` with a bad host index and malformed hostlist ranges (`illegal hosts input`) —
-`runCmd` receives the target list already expanded; the hostlist parser has its own mirror (`Pm/HL.lean`). -/
+`runCmd` receives the target list already expanded, as plug indices.  The command loop in front of it — splitting
+the input line, the command table, `setplugs` / `setpath` / `settimeout` …, the plug table, target resolution of hostlist
+expressions, every diagnostic — is the model `Pm/RfCmd.lean` (on strings, same bytes as the real helper); its theorems
+are section 5 below (`C19_bad_input` …, `C19_targets_resolved`), where sections 1–4 are composed with it. -/
 namespace Pm.Props.C19
 open Pm.Redfish
 
@@ -217,5 +221,305 @@ example : (machSeq exC exSt exCmds).1.map (·.1) =
      [.status 0 .on, .status 5 .on, .status 1 .off, .status 3 .off, .status 2 .off, .status 4 .off, .status 6 .on],
      [.phased 1, .phased 3],
      [.dep 3 .on .off 1, .dep 4 .on .off 2, .ok 6, .ok 6]] := by decide +kernel
+
+/-! ## 5. the command layer: any input line, configuration commands, target resolution
+
+`Pm/RfCmd.lean` mirrors `shell()` / `process_cmd()` and the configuration commands on strings: `step s buf` is what one
+piece of input (one `fgets`) does to the state `s`: new state, lines printed, and how it ends (`Ctl`): `cont` = back at
+the prompt, `exit n`, `abort` (a failed `assert`), `hang` (no prompt ever again), `outside` (behaviour of the real helper
+known — see the model — but not described: a number of 20 digits or more in a range; a plug without status path polled;
+some commands on tables with cycles).  Compared byte for byte with the real helper on generated sessions
+(`lib/redfish.py`, second scenario).
+
+The sentence of the property — "unknown plugs, bad host indices and malformed ranges are reported without terminating
+the helper" — is TRUE of those three kinds of input (`C19_diag_…`, `C19_targets_resolved`, `C19_malformed_lines`) and
+FALSE of "any input": `C19_bad_input` says exactly which lines can end or wedge the helper, the `_counterexample`s give
+the input lines (all reproduced on the real helper). -/
+section CommandLayer
+open Pm.RfCmd
+
+/-- **Every piece of input, any bytes, in any state** (`w` = its first word): the helper is back at its prompt, or
+    * it ended with status 0 and the first word is `quit`; or
+    * it ended with status 1 (`err_exit`) and the line is a `setplugs` (a plug name that does not parse as a hostlist
+      expression again), a `setpath` (a plug the list knows and the map does not), or a `stat`/`on`/`off` while the
+      stored time-out overflows; or
+    * (model limit) a `setplugs`/`setpath`/`stat`/`on`/`off` with a 20-digit number in a range; or
+    * it is a `stat`/`on`/`off`, the helper is stuck (abort, hang, or outside the model), and the state is not `Safe`:
+      the plug table has an undefined parent or a cycle, or some plug has no status path.
+    No other line ends the helper: in particular not an unknown command, a wrong number of arguments, an empty or
+    over-long line, a malformed or oversized range, a bad host index, an unknown plug. -/
+theorem C19_bad_input (s : State) (buf : List Char) : StepClass s (firstWord buf) (step s buf).ctl :=
+  step_class s buf
+
+/-- `quit` (as first word, whatever follows) ends the helper with status 0 and prints nothing -/
+theorem C19_bad_input_quit (s : State) (buf : List Char) (h : firstWord buf = some (lit "quit")) :
+    (step s buf).ctl = .exit 0 ∧ (step s buf).out = [] := step_quit s buf h
+
+/-- Full statement wanted: "`step` returns `cont` unless the line is `quit`, for every line in every reachable state" —
+    false (counterexamples below).  Proved: from a `Safe` state (table handed to the machine well-formed: parents defined,
+    no cycle; every plug has a status path; stored time-out not overflowing) with plug list and plug map in step (`Link`:
+    every state reached through legal plug names, `C19_reachable`), a line — ANY bytes, `setplugs` and `setpath`
+    included — that defines only legal plug names and has no 20-digit number in a range comes back to the prompt, or is
+    `quit`.  Extra hypotheses and the inputs they exclude: `Safe s` excludes states reached through `setplugs` with an
+    undefined or cyclic parent, `setstatpath` without argument, `settimeout` with a huge value (each a counterexample
+    below); `LegalSetplugs` excludes plug names with a bracket after the range (`P[1]x[`, `P[1]x[3]`: counterexamples
+    below); `≠ bignum` is the limit of the hostlist mirror (`strtoul` saturates at 2^64 - 1; the real helper reports such
+    plugs unknown and goes on). -/
+theorem C19_bad_input_partial (s : State) (buf : List Char) (hs : Safe s) (hl : Link s)
+    (hleg : LegalSetplugs (argvCreate (cstr buf))) (hb : (step s buf).ctl ≠ bignum) :
+    (step s buf).ctl = .cont ∨ ((step s buf).ctl = .exit 0 ∧ firstWord buf = some (lit "quit")) :=
+  step_cont s buf hs hl hleg hb
+
+/-- the same for lines that are neither `setplugs` nor `setpath`, without any assumption on plug names or on list and map -/
+theorem C19_bad_input_other_lines_partial (s : State) (buf : List Char) (hs : Safe s)
+    (h1 : firstWord buf ≠ some (lit "setplugs")) (h2 : firstWord buf ≠ some (lit "setpath"))
+    (hb : (step s buf).ctl ≠ bignum) :
+    (step s buf).ctl = .cont ∨ ((step s buf).ctl = .exit 0 ∧ firstWord buf = some (lit "quit")) :=
+  step_safe s buf hs h1 h2 hb
+
+example : Link exState := exState_Link
+example : LegalSetplugs (argvCreate (cstr (lit "setplugs Slot[1-3],x[7-9]b 3,0,1,1,1,9 Node5\n"))) :=
+  legalSetplugsB_sound _ (by decide +kernel)
+example : Safe exState := exState_safe
+example : (step exState (lit "stat Node[0-9],zz P[3-1\n")).ctl = .cont := by decide +kernel
+example : (step exState (lit "\x00quit\n")).ctl = .cont ∧ (step exState (lit " \t quit now\n")).ctl = .exit 0 := by decide +kernel
+
+/-- a `Safe` state stays `Safe` under every line that is not `setplugs`, `setpath`, `setstatpath` or `settimeout`: in
+    particular under every `stat` / `on` / `off`, unknown command, malformed target expression, empty or over-long line -/
+theorem C19_safe_kept (s : State) (buf : List Char) (hs : Safe s)
+    (h : firstWord buf ≠ some (lit "setplugs") ∧ firstWord buf ≠ some (lit "setpath") ∧
+      firstWord buf ≠ some (lit "setstatpath") ∧ firstWord buf ≠ some (lit "settimeout")) : Safe (step s buf).st :=
+  step_Safe s buf hs h
+
+/-- over-long lines: `fgets(buf, 256, stdin)` cuts the input into pieces of at most 255 bytes, each handled as a line of
+    its own (one prompt each); put together again the pieces are the input -/
+theorem C19_long_lines (fuel : Nat) (l : List Char) (h : l.length < fuel) :
+    (fgetsSplit fuel l).flatten = l ∧ ∀ p ∈ fgetsSplit fuel l, p.length ≤ 255 := fgetsSplit_spec fuel l h
+
+example : (fgetsSplit 1000 (List.replicate 300 'x' ++ lit "\nstat\n")).map List.length = [255, 46, 5] := by decide +kernel
+
+/-- `setplugs P[1]x[ 0` (plug name `P1x[`): the helper exits with status 1 — `plugs_add` parses the plug NAME again as a
+    hostlist expression (`hostlist_push`), which fails -/
+theorem C19_bad_input_push_counterexample : runLines "h[0-3]" ["setplugs P[1]x[ 0"] = some ([[]], .exit 1) :=
+  push_fail_counterexample
+
+/-- `settimeout 99999999999999999999` is reported invalid and stored all the same (so is the valid
+    `9223372036854775807`); the next `stat` of a known plug exits with status 1 (`cmd_timeout overflow`) -/
+theorem C19_bad_input_timeout_counterexample :
+    runLines "h[0-3]" ["setstatpath s", "settimeout 99999999999999999999", "stat zz", "stat h0"] =
+      some ([[], [lit "invalid timeout specified"], [lit "unknown plug specified: zz"], []], .exit 1) ∧
+    runLines "h[0-3]" ["setstatpath s", "settimeout 9223372036854775807", "stat h0"] = some ([[], [], []], .exit 1) :=
+  timeout_counterexample
+
+/-- an undefined parent is accepted; `stat` of the child aborts (`assert(root_plugname)`); defining the parent later
+    repairs the table -/
+theorem C19_bad_input_undefined_parent_counterexample :
+    runLines "h[0-3]" ["setstatpath s", "setplugs B 0 A", "stat B"] =
+      some ([[], [], []], .abort "send_initial_parent_queries: Assertion `root_plugname' failed") ∧
+    runLines "h[0-3]" ["setstatpath s", "setplugs B 0 A", "setplugs A 1", "stat B,A"] =
+      some ([[], [], [], [lit "A: off", lit "B: off"]], .cont) :=
+  ⟨undefined_parent_counterexample, parent_after_child⟩
+
+/-- a cycle (two plugs, or a plug that is its own parent) is accepted; `stat` of a plug on it never returns -/
+theorem C19_bad_input_cycle_counterexample :
+    runLines "h[0-3]" ["setstatpath s", "setplugs B 0 A", "setplugs A 0 B", "stat B"] =
+      some ([[], [], [], []], .hang "plugs_find_root_parent walks a cycle") ∧
+    runLines "h[0-3]" ["setstatpath s", "setplugs A 0 A", "stat A"] =
+      some ([[], [], []], .hang "plugs_find_root_parent walks a cycle") := cycle_counterexample
+
+/-- without a status path, `on` of a child never comes back (the parent query is dropped, the child waits for ever;
+    the model stops at `outside`, the real helper was observed to hang) -/
+theorem C19_bad_input_no_statpath_counterexample :
+    runLines "h[0-3]" ["setonpath o", "setplugs A 0", "setplugs B 0 A", "on B"] =
+      some ([[], [], [], []], .outside "a plug without status path is polled or queried") := no_statpath_counterexample
+
+/-- `setplugs P[1]x[3] 0` files the plug as `P1x3` in the list and as `P1x[3]` in the map: unusable under both names, and
+    `setpath P1x3 stat s` exits with status 1 -/
+theorem C19_bad_input_unmapped_counterexample :
+    runLines "h[0-3]" ["setstatpath s", "setplugs P[1]x[3] 0", "stat", "stat P[1]x[3]"] =
+      some ([[], [], [lit "plug not mapped: P1x3"], [lit "unknown plug specified: P1x[3]"]], .cont) ∧
+    runLines "h[0-3]" ["setplugs P[1]x[3] 0", "setpath P1x3 stat s"] = some ([[], []], .exit 1) := unmapped_counterexample
+
+/-- observations: the host index passes through `int` (2^32 is host 0, 2^32 - 1 is "-1": invalid) -/
+theorem C19_index_truncation_counterexample :
+    runLines "h[0-3]" ["setstatpath s", "setplugs P 4294967296", "stat"] = some ([[], [], [lit "P: off"]], .cont) ∧
+    runLines "h[0-3]" ["setplugs P 4294967295"] =
+      some ([[lit "setplugs: invalid hostindex 4294967295 specified"]], .cont) := index_truncation_counterexample
+
+/-- observation: a `setplugs` refused for its counts has already removed the initial per-host plugs -/
+theorem C19_mismatch_wipes_counterexample :
+    runLines "h[0-3]" ["setstatpath s", "stat h0", "setplugs a,b 0,1,2", "stat h0", "stat"] =
+      some ([[], [lit "h0: off"], [lit "setplugs: plugs count not equal to host index count"],
+             [lit "unknown plug specified: h0"], []], .cont) := mismatch_wipes_counterexample
+
+/-! ### which line is answered with which diagnostic -/
+
+/-- a first word that is not one of the thirteen commands: `type "help" for a list of commands`, nothing changes -/
+theorem C19_diag_unknown_command (s : State) (c : Name) (args : List Name) (h : c ∉ commandWords) :
+    processCmd s (c :: args) = ok s [lit "type \"help\" for a list of commands"] := processCmd_unknown s c args h
+
+/-- a line without words (empty, blanks, or starting with a NUL byte): nothing is printed, nothing changes -/
+theorem C19_diag_empty (s : State) : processCmd s [] = ok s [] := rfl
+
+example : (step exState (lit "  \t\r\n")).out = [] ∧ (step exState (lit "\x00stat\n")).out = [] ∧
+    (step exState (lit "STAT Node0\n")).out = [lit "type \"help\" for a list of commands"] := by decide +kernel
+
+/-- `setplugs` with fewer than two arguments: the usage line -/
+theorem C19_diag_setplugs_usage (s : State) (av : List Name) (h : av.length < 2) :
+    setplugs s av = ok s [lit "Usage: setplugs <plugnames> <hostindices> [<parentplug>]]"] := setplugs_usage s av h
+
+/-- plug names that `hostlist_create` refuses (reversed, open, oversized, non-numeric range): one line, nothing changes -/
+theorem C19_diag_setplugs_plugnames (s : State) (a0 a1 : Name) (rest : List Name)
+    (hb : (hlArgOK a0 && hlArgOK a1) = true) (h0 : hlCreate a0 = none) :
+    setplugs s (a0 :: a1 :: rest) = ok s [lit "setplugs: illegal plugnames input"] :=
+  setplugs_illegal_plugnames s a0 a1 rest hb h0
+
+/-- host indices that `hostlist_create` refuses: one line, nothing changes -/
+theorem C19_diag_setplugs_hostindices (s : State) (a0 a1 : Name) (rest : List Name) (lplugs : Hostlist)
+    (hb : (hlArgOK a0 && hlArgOK a1) = true) (h0 : hlCreate a0 = some lplugs) (h1 : hlCreate a1 = none) :
+    setplugs s (a0 :: a1 :: rest) = ok s [lit "setplugs: illegal hostindices input"] :=
+  setplugs_illegal_hostindices s a0 a1 rest lplugs hb h0 h1
+
+/-- counts that differ (and not "several plugs, one index"): one line; the only change: the initial plugs are gone -/
+theorem C19_diag_setplugs_count (s : State) (a0 a1 : Name) (rest : List Name) (lplugs hostindices : Hostlist)
+    (hb : (hlArgOK a0 && hlArgOK a1) = true) (h0 : hlCreate a0 = some lplugs) (h1 : hlCreate a1 = some hostindices)
+    (hc : hlCount lplugs ≠ hlCount hostindices) (hs : ¬ (hlCount lplugs > 1 ∧ hlCount hostindices = 1)) :
+    setplugs s (a0 :: a1 :: rest) =
+      ok (removeInitialPlugs s) [lit "setplugs: plugs count not equal to host index count"] :=
+  setplugs_mismatch s a0 a1 rest lplugs hostindices hb h0 h1 hc hs
+
+/-- a host index string that is not a non-negative decimal `int` (overflow of `long`, anything after the digits, negative
+    — also after the conversion to `int`): `invalid hostindex`, this plug and the ones after it are not defined -/
+theorem C19_diag_host_index_invalid (s : State) (p his : Name) (par : Option Name) (h : ¬ ValidIndexStr his) :
+    setupPlug s p his par = .bad (lit "setplugs: invalid hostindex " ++ his ++ lit " specified") :=
+  setupPlug_invalid s p his par h
+
+/-- a valid host index that names no host: `hostindex N out of range` -/
+theorem C19_diag_host_index_range (s : State) (p his : Name) (par : Option Name) (h : ValidIndexStr his)
+    (hn : nthC s.hosts (hostIndexOf his) = none) :
+    setupPlug s p his par =
+      .bad (lit "setplugs: hostindex " ++ (toString (toInt32 (strtol his).1)).toList ++ lit " out of range") :=
+  setupPlug_range s p his par h hn
+
+example : ¬ ValidIndexStr (lit "-1") ∧ ¬ ValidIndexStr (lit "1x") ∧ ¬ ValidIndexStr (lit "99999999999999999999") ∧
+    ValidIndexStr (lit "+3") ∧ ValidIndexStr (lit "007") ∧ hostIndexOf (lit "007") = 7 := by decide +kernel
+
+/-- a target expression that `hostlist_create` refuses: `illegal hosts input`, nothing else happens -/
+theorem C19_diag_illegal_hosts (s : State) (cmd : Redfish.Cmd) (a : Name) (rest : List Name) (hb : hlArgOK a = true)
+    (h : hlCreate a = none) : powerCmd s cmd (a :: rest) = ok s [lit "illegal hosts input"] :=
+  powerCmd_illegal s cmd a rest hb h
+
+example : hlCreate (lit "P[3-1]") = none ∧ hlCreate (lit "P[1-") = none ∧ hlCreate (lit "P[1-100000]") = none ∧
+    hlCreate (lit "P1]") = none ∧ hlCreate (lit "P[a-b]") = none := by decide +kernel
+
+/-- a session of malformed lines on the real helper's text: each answered by its one line, the helper goes on -/
+theorem C19_malformed_lines : runLines "h[0-3]" ["setstatpath s", "stat P[3-1]", "on P[1-", "off P1]", "stat P[1-100000]", "stat P[a-b]",
+      "setplugs P[3-1] 0", "setplugs P0 [0-", "setplugs P[0-1] [0-2]", "setplugs P[0-2] 0,9,1", "setplugs Q -1", "setplugs Q 1x",
+      "bogus", "", "stat zz,h1,zz", "setplugs", "setpath h1 cycle x", "settimeout x"] =
+    some ([[], [lit "illegal hosts input"], [lit "illegal hosts input"], [lit "illegal hosts input"], [lit "illegal hosts input"],
+      [lit "illegal hosts input"], [lit "setplugs: illegal plugnames input"], [lit "setplugs: illegal hostindices input"],
+      [lit "setplugs: plugs count not equal to host index count"], [lit "setplugs: hostindex 9 out of range"],
+      [lit "setplugs: invalid hostindex -1 specified"], [lit "setplugs: invalid hostindex 1x specified"],
+      [lit "type \"help\" for a list of commands"], [], [lit "unknown plug specified: zz", lit "unknown plug specified: h1", lit "unknown plug specified: zz"],
+      [lit "Usage: setplugs <plugnames> <hostindices> [<parentplug>]]"], [lit "setpath: invalid command specified"],
+      [lit "invalid timeout specified"]], .cont) := malformed_lines
+
+/-! ### `setplugs` accepted: the table is extended as documented and stays well-formed -/
+
+/-- **`setplugs` accepted** (equal counts, no diagnostic, back at the prompt): for every position `j`, the `j`-th plug
+    name and the `j`-th index string exist, the index string is valid and names host `host`, and — unless the same name
+    occurs again further right in the expression — the table maps the name to (that host, that index, the parent
+    given); names the expression does not mention keep what they had once the initial per-host plugs were removed -/
+theorem C19_setplugs_pairs (s : State) (a0 a1 : Name) (rest : List Name) (lplugs hostindices : Hostlist) (h : TInv s)
+    (hb : (hlArgOK a0 && hlArgOK a1) = true) (h0 : hlCreate a0 = some lplugs) (h1 : hlCreate a1 = some hostindices)
+    (hc : hlCount lplugs = hlCount hostindices)
+    (hctl : (setplugs s (a0 :: a1 :: rest)).ctl = .cont) (hout : (setplugs s (a0 :: a1 :: rest)).out = []) :
+    (∀ j, j < hlCount lplugs → ∃ p his host, nthC lplugs j = some p ∧ nthC hostindices j = some his ∧
+        ValidIndexStr his ∧ nthC s.hosts (hostIndexOf his) = some host ∧
+        ((∀ j', j < j' → j' < hlCount lplugs → nthC lplugs j' ≠ some p) →
+          (setplugs s (a0 :: a1 :: rest)).st.plugMap.lookup p = some (pairData p his host rest.head?))) ∧
+    (∀ n, (∀ j, j < hlCount lplugs → nthC lplugs j ≠ some n) →
+        (setplugs s (a0 :: a1 :: rest)).st.plugMap.lookup n = (removeInitialPlugs s).plugMap.lookup n) :=
+  setplugs_pairs s a0 a1 rest lplugs hostindices h hb h0 h1 hc hctl hout
+
+example : (setplugs exState [lit "Slot[1-3]", lit "3,0,1", lit "Node5"]).st.plugMap.lookup (lit "Slot2") =
+    some (pairData (lit "Slot2") (lit "0") (lit "h0") (some (lit "Node5"))) ∧
+    (setplugs exState [lit "Slot[1-3]", lit "3,0,1", lit "Node5"]).out = [] := by decide +kernel
+
+/-- several plugs and ONE index: the loop gives every plug that index -/
+theorem C19_setplugs_one_index (s : State) (a0 a1 : Name) (rest : List Name) (lplugs hostindices : Hostlist) (his : Name)
+    (hb : (hlArgOK a0 && hlArgOK a1) = true) (h0 : hlCreate a0 = some lplugs) (h1 : hlCreate a1 = some hostindices)
+    (hc : hlCount lplugs > 1) (h1' : hlCount hostindices = 1) (hn : nthC hostindices 0 = some his) :
+    setplugs s (a0 :: a1 :: rest) =
+      setplugsLoop lplugs (fun _ => some his) rest.head? (hlCount lplugs) 0 (removeInitialPlugs s) :=
+  setplugs_eq_subst s a0 a1 rest lplugs hostindices his hb h0 h1 hc h1' hn
+
+/-- **the table stays well-formed under every piece of input, any bytes** (`TInv`: plug names distinct, each entry filed
+    under its own name, its host index an index into `hosts` naming the recorded host); `hosts` never changes.
+    NOT part of well-formedness, because the C code does not keep it: parents defined, no cycles
+    (`C19_bad_input_undefined_parent_counterexample`, `C19_bad_input_cycle_counterexample`). -/
+theorem C19_table_wellformed (s : State) (buf : List Char) (h : TInv s) :
+    (step s buf).st.hosts = s.hosts ∧ TInv (step s buf).st := step_inv s buf h
+
+/-- … so every recorded host index is smaller than the number of hosts -/
+theorem C19_host_index_in_range (s : State) (hh : HWF s.hosts) (h : TInv s) (e : Name × PlugData) (he : e ∈ s.plugMap) :
+    e.2.hostIdx < (expand s.hosts).length := hostIdx_lt s hh h e he
+
+example : TInv exState := exState_TInv
+
+/-- **reachable states**: the helper started on host names without separators and brackets, then any pieces of input
+    whose `setplugs` lines define plug names of that kind (`LegalSetplugs`; the other lines are arbitrary): the table is
+    well-formed, and the plug list (`plugs_name_valid`, `stat` without arguments) and the plug map (everything else) name
+    the same plugs.  The proviso on plug names is necessary: `C19_bad_input_unmapped_counterexample`. -/
+theorem C19_reachable (hostArgs failArgs : List Name) (now : Nat) (s0 : State)
+    (h0 : init hostArgs failArgs now = some s0) (hleg : ∀ n ∈ expand (hostsOf hostArgs), LegalName n)
+    (bufs : List (List Char)) (hb : ∀ b ∈ bufs, LegalSetplugs (argvCreate (cstr b))) :
+    TInv (session s0 bufs).1 ∧ Link (session s0 bufs).1 ∧ Linked (session s0 bufs).1 :=
+  reachable_inv hostArgs failArgs now s0 h0 hleg bufs hb
+
+example : ∀ b ∈ exLines.map (fun l => lit l ++ ['\n']), LegalSetplugs (argvCreate (cstr b)) := exLines_legal
+example : ∀ n ∈ expand (hostsOf [lit "h[0-3]"]), LegalName n := by decide +kernel
+
+/-! ### target resolution, composed with the machine theorems -/
+
+/-- **`C19_targets_resolved`.**  A `stat` / `on` / `off` line with the hostlist expression `a` (names `expand hl`), from a
+    `Safe` state with list and map in step (`Linked`: every reachable state, `C19_reachable`) and the command's path set:
+    the helper comes back to its prompt; it prints one `unknown plug specified: n` line per unknown name, in expression
+    order, then the lines `M` of the machine, which was handed exactly the known names, in expression order, duplicates
+    kept (`T`); `M` has exactly one line per element of `T` (`C19_one_line_per_target` through the seam), none of them an
+    "unknown plug" line, and `M` is, up to order, what the documented rules prescribe (`C19_refines`) -/
+theorem C19_targets_resolved (s : State) (cmd : Redfish.Cmd) (a : Name) (rest : List Name) (hl : Hostlist)
+    (hs : Safe s) (hlk : Linked s) (hp : PathsFor s cmd) (hb : hlArgOK a = true) (hc : hlCreate a = some hl) :
+    let names := expand hl
+    let T := names.filterMap (mIndex s.plugMap)
+    let M := (Redfish.runCmd (mCfg s) (mSt s) cmd T).1
+    (powerCmd s cmd (a :: rest)).ctl = .cont ∧
+    (powerCmd s cmd (a :: rest)).out =
+      (names.filter fun n => (mIndex s.plugMap n).isNone).map unknownLine ++ M.map (render s) ∧
+    (M.map Redfish.linePlug).Perm T ∧ (∀ l ∈ M, Redfish.isUnk l = false) ∧
+    M.Perm (Redfish.specRun (mCfg s) (mSt s) cmd T).1 := by
+  intro names T M
+  obtain ⟨h1, h2, h3, h4⟩ := powerCmd_resolved s cmd a rest hl hs hlk hp hb hc
+  exact ⟨h1, h2, h3, h4, powerCmd_rules s cmd names hs⟩
+
+/-- the resolution alone, in any state with list and map in step (no time-out overflow): lines and targets -/
+theorem C19_targets_resolved_loop (s : State) (cmd : Redfish.Cmd) (hl : Linked s) (hp : PathsFor s cmd) (names : List Name) :
+    resolveLoop s cmd false names =
+      ((names.filter fun n => (mIndex s.plugMap n).isNone).map unknownLine, names.filterMap (mIndex s.plugMap), false) :=
+  resolveLoop_spec s cmd hl hp names
+
+/-- non-vacuity: the hypotheses hold of `exState` and `on Node[2-5],zz,Node2` … -/
+example : Safe exState ∧ Linked exState ∧ PathsFor exState .on ∧ hlArgOK (lit "Node[2-5],zz,Node2") = true ∧
+    (hlCreate (lit "Node[2-5],zz,Node2")).isSome = true :=
+  ⟨exState_safe, exState_Link.linked, PathsFor_of_default _ _ (by decide +kernel), by decide +kernel, by decide +kernel⟩
+/-- … and this is the answer (both blades are off: the nodes are refused; `zz` is unknown; `Node2` is answered twice) -/
+example : (powerCmd exState .on [lit "Node[2-5],zz,Node2"]).out =
+    [lit "unknown plug specified: zz", lit "Node2: cannot perform on, dependency off (host=h0 plug=Blade0)",
+     lit "Node3: cannot perform on, dependency off (host=h0 plug=Blade0)",
+     lit "Node2: cannot perform on, dependency off (host=h0 plug=Blade0)",
+     lit "Node4: cannot perform on, dependency off (host=h1 plug=Blade1)",
+     lit "Node5: cannot perform on, dependency off (host=h1 plug=Blade1)"] := by decide +kernel
+
+end CommandLayer
 
 end Pm.Props.C19
